@@ -36,7 +36,13 @@ def tokens(values):
 def load_record(tmp, sc, idx):
     """materialise scenario sc as a real directory and load it"""
     w = sc['world']
-    d = os.path.join(tmp, f'db{idx}')
+    if idx % 2 == 0:
+        # every second scenario is built at ONE path per worker process, replacing the database that was there before: a rebuilt database
+        # directory is loaded again in the same process
+        d = os.path.join(tmp, f'reused_{os.getpid()}')
+        shutil.rmtree(d, ignore_errors=True)
+    else:
+        d = os.path.join(tmp, f'db{idx}')
     os.makedirs(d)
     attr = sc['id_attr']
     store_attr = sc.get('store_attr', attr if attr in ATTRS else 'key')         # attribute whose values are written as ids
@@ -52,10 +58,10 @@ def load_record(tmp, sc, idx):
                id_attr=store_attr, sig_order=sig_order, extra_sigs=sc.get('extra', []))
     # the .gdb must carry the nulls; rebuild it from w2 (signature file stays)
     gs_tmp = os.path.join(d, 'ref.gs')
-    os.rename(gs_tmp, gs_tmp + '.keep')
-    W.build_db(d, w2 if not sc.get('nulls') else dict(w2, genomes=[dict(g, key=g['key']) for g in genomes]), id_attr='key')
-    os.remove(gs_tmp)
-    os.rename(gs_tmp + '.keep', gs_tmp)
+    scratch = os.path.join(tmp, f'scratch{idx}')           # built elsewhere: nothing but the final files is ever written at the database path
+    W.build_db(scratch, w2 if not sc.get('nulls') else dict(w2, genomes=[dict(g, key=g['key']) for g in genomes]), id_attr='key')
+    os.replace(os.path.join(scratch, 'ref.gdb'), os.path.join(d, 'ref.gdb'))
+    shutil.rmtree(scratch, ignore_errors=True)
     # metadata id_attr as the scenario wants it (possibly None / junk): rewrite the attribute in place
     import h5py
     with h5py.File(gs_tmp, 'r+') as f:
@@ -67,7 +73,8 @@ def load_record(tmp, sc, idx):
     listing = sc.get('listing')
     if listing is not None:
         have = {('ref', '.gdb'): os.path.join(d, 'ref.gdb'), ('ref', '.gs'): gs_tmp}
-        d2 = os.path.join(tmp, f'dir{idx}')
+        d2 = os.path.join(tmp, f'dir{idx}' if idx % 2 else f'reuseddir_{os.getpid()}')
+        shutil.rmtree(d2, ignore_errors=True)
         os.makedirs(d2)
         for ent in listing:
             name = ent['name'] + ent['ext']
@@ -228,7 +235,7 @@ def run(ctx):
                               'unrelated signature for each of the four identifier attributes (string and integer ids; all 120 orders for key, '
                               'every third for the others in quick), all ways of violating completeness, all 64 subsets of a 6-entry directory '
                               'listing; loaded databases are probed through query() with chunk sizes 1000/1/2/3 and every reported distance is '
-                              'recomputed by TLC from the sequences of the genome\'s OWN contigs')
+                              'recomputed by TLC from the sequences of the genome\'s OWN contigs; every second database is built at a path that held another database before (same process)')
         ctx.exhaustive_all = ctx.tier == 'thorough'
         # self-test: swap two signature indices / claim a failed load succeeded
         good = next(r for r in recs if r['op'] == 'load' and r['outcome'] == 'loaded' and len(r['I']) >= 2)
